@@ -1,11 +1,11 @@
 package core
 
 import (
-	"math/big"
-	"strconv"
 	"encoding/base64"
 	"encoding/hex"
+	"math/big"
 	"reflect"
+	"strconv"
 	"strings"
 
 	gpb "github.com/openconfig/gnmi/proto/gnmi"
@@ -43,8 +43,6 @@ func (p Path) GNMI() *gpb.Path {
 	return out
 }
 
-
-
 // KeyLeafPaths returns, for the list entry struct at entry path ep, the data-tree paths of its key
 // leaves (all tag alternatives) with the key values taken from the path element.
 func (p *Pkg) KeyLeafPaths(entry interface{}, ep Path) map[string]Value {
@@ -76,7 +74,9 @@ func (p *Pkg) KeyLeafPaths(entry interface{}, ep Path) map[string]Value {
 }
 
 // HasPrefixFold is a tiny helper for error classification.
-func HasPrefixFold(s, p string) bool { return strings.HasPrefix(strings.ToLower(s), strings.ToLower(p)) }
+func HasPrefixFold(s, p string) bool {
+	return strings.HasPrefix(strings.ToLower(s), strings.ToLower(p))
+}
 
 // KeyMatches reports whether the gNMI key string s denotes the key value v (reference parser:
 // decimal digits for integers, any float syntax for decimal64, names, true/false, base64).
@@ -199,7 +199,10 @@ func TVMatches(tv *gpb.TypedValue, v Value) bool {
 			return false
 		}
 		s := x.StringVal
-		if i := strings.LastIndex(s, ":"); i >= 0 {
+		if s == v.Payload() { // also names that contain a colon themselves ("ipv4:unicast")
+			return true
+		}
+		if i := strings.Index(s, ":"); i >= 0 { // module prefix of an identityref
 			s = s[i+1:]
 		}
 		return s == v.Payload()
